@@ -47,5 +47,7 @@ SEEDED = [
     ("C01-7", "C01-UNBOUND"),
     ("C01-8", "C01-REGEX"),
     ("C01-9", "C01-BORROW"),
+    ("C01-10", "C01-LOOP"),
+    ("C01-11", "C01-WRAP"),
 ]
 MUTANTS = list(MUTANTS) + [_P("seed-" + sid, _os.path.join(_SEEDS, sid, "patch.diff"), rule) for sid, rule in SEEDED if _os.path.exists(_os.path.join(_SEEDS, sid, "patch.diff"))]
